@@ -178,7 +178,12 @@ def run(rep, drv):
 	for cz in ({'T': 4, 'h': '1', 'K': '0', 'd': ['5', '7', '3', '6'], 'c': ['1', '3', '6', '10']},
 			   {'T': 3, 'h': ['1/4', '1/4', '1/4'], 'K': ['0', '0', '0'], 'd': ['4', '4', '4'], 'c': ['0', '2', '5']},
 			   {'T': 4, 'h': '2', 'K': '0', 'd': ['5', '0', '3', '0'], 'c': ['9', '4', '2', '1']},
-			   {'T': 5, 'h': '1', 'K': ['0', '30', '0', '30', '0'], 'd': ['6', '2', '8', '1', '4'], 'c': '1'}):
+			   {'T': 5, 'h': '1', 'K': ['0', '30', '0', '30', '0'], 'd': ['6', '2', '8', '1', '4'], 'c': '1'},
+			   # large cost figures with a comparatively small saving from ordering later (a "minimum" taken with a relative tolerance keeps the earlier, dearer period)
+			   {'T': 2, 'h': '1', 'K': ['10000000', '100'], 'd': ['40', '50'], 'c': '1'},
+			   {'T': 4, 'h': '3', 'K': '2000000', 'd': ['10', '5', '7', '2'], 'c': '0'},
+			   {'T': 3, 'h': ['1', '1', '1'], 'K': ['50000000', '30', '20'], 'd': ['9', '4', '6'], 'c': ['2', '2', '1']},
+			   {'T': 3, 'h': '2', 'K': ['900000000', '11', '7'], 'd': ['3', '5', '4'], 'c': '0'}):
 		py, m = one_case(rep, drv, cz)
 		rep.case('ww-exact', cz, nontrivial=True); rep.count('ww:corpus-case')
 		nz = lambda v: [Fraction(x) for x in v] if isinstance(v, list) else [Fraction(v)] * cz['T']
